@@ -985,11 +985,12 @@ def probes():
                                                   "sep": bits(sep), "dir": 0, "speed": f2b(1.0), "dE": f2b(dE)}})
     lj([-0.41627579, 0.92146492, 0.33698094], 1e-17, "F3a")
     lj([hx("-0x1.1f59ac3c7d6c0p+0"), 0.0, 0.0], 1e-300, "F3a")
-    lj([hx("0x1.14aaf99f0042fp+0"), hx("0x1.9aa1f367bbb03p-4"), hx("0x1.2505e5d26f28bp-2")], 1e-300, "F3a")
+    lj([hx("0x1.ba2209dfd0f9bp-1"), hx("0x1.0909855e91955p-1"), hx("0x1.fc26c55e605c7p-2")], 1e-300, "F3a")
     ip(1.0, 1.0, 1.0, -1.0, [0.0, 0.7612, 0.9054], 1e-16, "F3b")
-    ip(1.0, 1.0, 1.0, -1.0, [1.595, 0.1099, 0.2851], 1e-16, "F3b")
-    ip(6.0, 1.0, 1.0, -1.0, [-0.0, 1.0586, 0.9086], 1e-20, "F3b")
-    dep([0.0, 1.378, 0.706], 1e-16, "F3b")
+    ip(1.0, 1.0, 1.0, -1.0, [hx("0x1.98688f2b0b150p+0"), hx("0x1.c252370287a5ep-4"), hx("0x1.23f04fa22d5bep-2")], 1e-16,
+       "F3b")
+    ip(6.0, 1.0, 1.0, -1.0, [-0.0, hx("0x1.0f14148540627p+0"), hx("0x1.d152814a65981p-1")], 1e-20, "F3b")
+    dep([0.0, hx("0x1.60d21b80e10ebp+0"), hx("0x1.69918ed670f91p-1")], 1e-16, "F3b")
     lj([0.0, 1.169, 0.532], 1e-18, "F3b")
     lj([hx("-0x1.515d6f32a9c85p-1"), hx("0x1.b94b58954c542p-1"), hx("0x1.26c9a3915e037p-2")], 1e-20, "F3c")
     lj([hx("0x1.8213712895976p-1"), hx("0x1.a71ea8ec709a5p-1"), hx("0x1.76df56c47f4aap-4")], 1e-20, "F3c")
